@@ -106,14 +106,19 @@ Theorem after_page : forall (B : Type) (consume : hit -> B -> B) n order key agg
 Proof. exact @after_page_all. Qed.
 Print Assumptions after_page.
 
-(* full statement wanted: Before(key) = the LAST n hits strictly before `key` of the forward
-   ranking, in forward order, and (paging_covers) chained After/Before pages concatenate to the
-   ranking under an order distinguishing all matches.  Proved here: Before(key) = reverse of
-   the first n, under the reversed comparison, of the hits strictly before `key`; the
-   identification of the reversed-comparison ranking with the reversed forward ranking (which
-   needs the distinguishing hypothesis, the hit-number tie-break is not reversed) and the chain
-   induction are checked by the engine's oracle only. *)
-Theorem before_page_partial : forall (B : Type) (consume : hit -> B -> B) n order key aggf b0 hits,
+(* Before(key), under a sort order whose keys distinguish all matches: the LAST n hits of the
+   forward ranking among those strictly before `key`, returned in forward order *)
+Theorem before_page : forall (B : Type) (consume : hit -> B -> B) n order key aggf b0 hits,
+  0 <= n -> (length order <= length key)%nat ->
+  keys_distinct (descs_of order) (prepare_all (order_fields order ++ aggf) order 0 hits) ->
+  rmap fst (topn_search consume n order (PBefore key) aggf b0 hits) =
+  Ok (lastn (Z.to_nat n) (filter (before_key (descs_of order) key) (ranking order aggf hits))).
+Proof. exact @before_page_full. Qed.
+Print Assumptions before_page.
+
+(* without the distinguishing hypothesis (ties are broken by ascending hit number in both
+   directions): the reverse of the first n, under the reversed comparison, of the hits before `key` *)
+Theorem before_page_general : forall (B : Type) (consume : hit -> B -> B) n order key aggf b0 hits,
   0 <= n -> (length order <= length key)%nat ->
   rmap fst (topn_search consume n order (PBefore key) aggf b0 hits) =
   Ok (rev (firstn (Z.to_nat n)
@@ -121,4 +126,25 @@ Theorem before_page_partial : forall (B : Type) (consume : hit -> B -> B) n orde
            (filter (fun d => cmp_keys (descs_of order) (h_sort d) key <? 0)
                    (prepare_all (order_fields order ++ aggf) order 0 hits))))).
 Proof. exact @before_page_all. Qed.
-Print Assumptions before_page_partial.
+Print Assumptions before_page_general.
+
+(* paging_covers: any page size n > 0, an order whose keys distinguish all matches: the first
+   page followed by After(last sort value) pages until an empty page is exactly the complete
+   ranking: every match once, in order.  (The fuel |hits| + 1 suffices: never OutOfFuel.)
+   The Before chain is the mirror image through before_page; it is checked by the engine's
+   oracle, the chain induction is stated here for After. *)
+Theorem paging_covers : forall (B : Type) (consume : hit -> B -> B) n order aggf b0 hits,
+  0 < n ->
+  keys_distinct (descs_of order) (prepare_all (order_fields order ++ aggf) order 0 hits) ->
+  after_chain consume (S (length hits)) n order aggf b0 hits (PFrom 0) = Ok (ranking order aggf hits).
+Proof. exact @paging_covers_after. Qed.
+Print Assumptions paging_covers.
+
+(* the hypotheses are satisfiable: pages of 5 over twelve hits with tied first keys and a unique
+   second key (keys pairwise distinct, checked by computation) *)
+Example paging_covers_nonvacuous :
+  rmap (map h_doc) (after_chain (fun _ (b : unit) => b) 13 5 ex_order2 [] tt ex12u (PFrom 0))
+    = Ok [110; 105; 100; 108; 103; 111; 106; 101; 109; 104; 107; 102] /\
+  keys_distinctb (descs_of ex_order2) (prepare_all (order_fields ex_order2) ex_order2 0 ex12u) = true.
+Proof. exact paging_covers_ex. Qed.
+Print Assumptions paging_covers_nonvacuous.
